@@ -858,8 +858,9 @@ def thorough_batch(pool, seed, args, batch):
     for k in (1, 2, 3, 4):
         if sweep_info["wide_runs"] >= gen.sweep_count(k) * len(gen.SWEEP_SOURCES):
             sweep_info["wide_complete_up_to_length"] = k
-    # seeded random histories for the rest of the budget
-    deadline = t0 + budget
+    # seeded random histories for the rest of the budget - and for a quarter
+    # of it at least, however long the systematic strata took
+    deadline = max(t0 + budget, time.time() + 0.25 * budget)
 
     def random_tasks():
         start = 0
